@@ -169,6 +169,14 @@ func keyDependsOn(m *Module, fn *ssa.Function, keyArg ssa.Value, keyFns []string
 	if dependsOnCall(keyArg, keyFns...) {
 		return true
 	}
+	// a key given as "=<literal>" in keyFns matches a constant key
+	if s, ok := constString(keyArg); ok {
+		for _, k := range keyFns {
+			if k == "="+s {
+				return true
+			}
+		}
+	}
 	p, ok := strip(keyArg).(*ssa.Parameter)
 	if !ok {
 		return false
